@@ -114,6 +114,13 @@ def case_cov(B, cfg):
     theta = th0 + beta
     cov = ps.arr(B, chis)
     one = ps.make(kind, n_dim, 1)
+    if kind == 'pooled' and not B.symbolic:
+        # float replay: the pooled model accepts only individual values that
+        # are *bit-identical* to the shifted parameter; take them from chi's
+        # own arithmetic (the sum above may round differently)
+        p0 = m.compute_individual_parameters(
+            ps.arr(B, theta), ps.arr(B, obs), covariates=cov)
+        obs = [[float(p0[i][d]) for d in range(n_dim)] for i in range(n_ids)]
 
     def value(xs):
         return m.compute_log_likelihood(
@@ -298,9 +305,9 @@ def jobs(tier):
     q = tier == 'quick'
     for kind in KINDS:
         P = ps.p_per_dim(kind)
-        for n_dim in ([1, 2] if q else [1, 2]):
-            for n_cov in ([1, 2] if q else [1, 2]):
-                for n_ids in ([2] if q else [1, 2]):
+        for n_dim in ([1, 2] if q else [1, 2, 3]):
+            for n_cov in ([1, 2] if q else [1, 2, 3]):
+                for n_ids in ([2] if q else [1, 2, 3]):
                     base = dict(kind=kind, n_dim=n_dim, n_cov=n_cov,
                                 n_ids=n_ids)
                     out.append(('cov', 'case_cov', dict(base), {}))
@@ -336,7 +343,7 @@ BOUNDS = dict(
           'default selection; ~8 selections per (model, n_dim) out of all '
           'ordered lists of 1..2 index pairs; LinearCovariateModel alone on '
           'all ordered lists of 1..2 pairs',
-    thorough='1..2 individuals, selections from all ordered lists of 1..3 '
+    thorough='n_dim 1..3, n_cov 1..3, 1..3 individuals; selections from all ordered lists of 1..3 '
              'pairs (<= 60 per model and dimension, evenly spaced)',
     outside='heterogeneous underlying model; more than 2 covariates / '
             'dimensions')
